@@ -76,6 +76,8 @@ var forms = []string{
 	"goto-label-return",        // if c { goto done }; return lit0; done: return lit1
 	"defer-and-closure-noise",  // defer func() { _ = func() int { return 9 }() }(); return lit1
 	"shadowing-local-consts",   // const w = "f<i>"; const n = 10+i; return w + w, n * 2: same text, another meaning per function
+	"variadic-spread-call",     // return ..., joinAll(errList...)      ([]error spread into ...error)
+	"variadic-listed-call",     // return ..., joinAll(errSentinel, errOther)
 	"named-compound-assign",    // named only: s, err = lits; n <<= uint8(3) style compound update of a local, bare return
 }
 
@@ -183,6 +185,17 @@ func (p Prog) body(i int) (src string, want [][]string) {
 			}
 		}
 		return fmt.Sprintf("const w = \"f%d\"\n\tconst n = %d\n\t_, _ = w, n\n\treturn %s", i, 10+i, strings.Join(exprs, ", ")), want
+	case "variadic-spread-call", "variadic-listed-call":
+		if ts[len(ts)-1] == "error" {
+			exprs := zeroExprs(sh, 0)
+			if form == "variadic-spread-call" {
+				exprs[len(exprs)-1] = "joinAll(append(errList, errSentinel)...)"
+				return "errs := errList\n\terrs = append(errs, errSentinel)\n\tif cond {\n\t\treturn " + strings.Join(append(append([]string{}, exprs[:len(exprs)-1]...), "joinAll(errs...)"), ", ") + "\n\t}\n\treturn " + strings.Join(exprs, ", "), nil
+			}
+			exprs[len(exprs)-1] = "joinAll(errSentinel, iface.Do())"
+			return "return " + strings.Join(exprs, ", "), nil
+		}
+		return ret(0), wantOf(0)
 	case "named-compound-assign":
 		if shapes[sh].named != nil {
 			// s is updated with += (operand of another shape than the result must not leak into the alternatives)
@@ -213,6 +226,7 @@ func (p Prog) source(name string) (string, [][][]string) {
 	b.WriteString("var cond bool\n\nvar errSentinel = errors.New(\"sentinel\")\n\ntype doer interface {\n\tDo() error\n\tName() string\n}\n\nvar iface doer\n\nvar _ = dep.Name\n\nvar ch chan int\n\nvar anyV any\n\n")
 	b.WriteString("func wrapErr(f func() (int, string, error)) error {\n\t_, _, err := f()\n\treturn err\n}\n\n")
 	b.WriteString("func wrapTwo(f func() error) error { return f() }\n\n")
+	b.WriteString("var errList []error\n\nfunc joinAll(errs ...error) error { return errors.Join(errs...) }\n\n")
 	wants := make([][][]string, len(p.Shapes))
 	// source order: f0 first, so a function calling a higher-numbered one is a caller ABOVE its callee
 	// (top-down layout) and one calling a lower-numbered one is bottom-up; both occur in the enumeration
